@@ -280,7 +280,7 @@ func (w *W) Canon() *W {
 // CanonBytes parses a top-level struct message and returns its canonical
 // serialisation and the number of bytes parsed; ok=false if it does not parse.
 func CanonBytes(b []byte) (canon []byte, n int, ok bool) {
-	w, n, err := Parse(b, WStruct, 4096)
+	w, n, err := Parse(b, WStruct, 1<<15) // (deeper than any value the harness builds: 2100 structs, each through up to three containers)
 	if err != nil {
 		return nil, 0, false
 	}
